@@ -110,8 +110,15 @@ func cmdCheck(args []string) int {
 			}
 			vc, err := e.GenFunc(con.Name, con)
 			if err != nil {
-				fmt.Fprintln(os.Stderr, "govc: contract error:", err)
-				genErr++
+				// The contract no longer fits the code (function gone, a local named in an invariant gone, arity
+				// changed): the function is NOT proved. That fails loudly as an obligation of its own instead of
+				// passing silently or aborting the whole check.
+				fmt.Fprintln(os.Stderr, "govc: contract does not apply to the current code:", err)
+				script := []string{}
+				obls = append(obls, &Obligation{Name: con.Name + "/contract.unresolved", Kind: "unresolved", Func: con.Name,
+					Props: []string{prop}, Guard: "true", Goal: "false", Status: "error", Script: &script,
+					Text: "the contract could not be applied to the current source: " + err.Error()})
+				funcs = append(funcs, con.Name)
 				continue
 			}
 			funcs = append(funcs, con.Name)
@@ -249,6 +256,11 @@ func cmdCheck(args []string) int {
 		}
 	}
 	cov["samples"] = samples
+	if tier == "thorough" && os.Getenv("VERIF_SCRATCH") == "" {
+		// must-fail corpus of this property: every mutant must make one of its expected obligations fail.
+		// A missed mutant is a hole in the contracts (reported here), not a violation of the property.
+		cov["selftest"] = runSelftest(prop)
+	}
 	var notes []string
 	for n := range e.Notes {
 		notes = append(notes, n)
